@@ -165,6 +165,22 @@ void *sim_realloc(void *old, size_t sz) {
 		/* grows/shrinks inside the block's granule: same address */
 		g_al_bytes += sz; g_al_bytes -= g_al[i].sz;
 		if (sz > g_al[i].sz) memset((uint8_t *)old + g_al[i].sz, 0xA5, sz - g_al[i].sz);
+		{
+			/* a block that shrinks in place gives its tail back: the red zone moves up to the new end (whoever still
+			 * believes in the old capacity writes into it) */
+			size_t ncap = (sz + 15u) & ~(size_t)15u;
+			if (ncap < g_al[i].cap) {
+#ifdef SEAM_ASAN
+				__asan_unpoison_memory_region((uint8_t *)old + ncap, g_al[i].cap - ncap + AL_REDZ);
+#endif
+				memset((uint8_t *)old + ncap, AL_CANARY, AL_REDZ);
+#ifdef SEAM_ASAN
+				__asan_poison_memory_region((uint8_t *)old + ncap, g_al[i].cap - ncap + AL_REDZ);
+#endif
+				g_al[i].cap = ncap;
+				sim_probe("alloc.realloc_shrunk_in_place");
+			}
+		}
 		g_al[i].sz = sz;
 		sim_probe("alloc.realloc_in_place");
 		return old;
